@@ -489,6 +489,9 @@ def run(ck):
     driver = ck.lean_exe("c11driver", "TfelVerif/C11/Driver.lean")
     res = ck.lean(PROPS, PROPS)
     ck.lean_violations(res)
+    if ck.tier == "thorough" and res.ok:
+        for m, log in ck.leanchecker(PROPS):
+            ck.violation("leanchecker:" + m, "leanchecker rejects " + m, {"log": log}, False)
 
     # ---- corpus: systematic small tables, then seeded tables of every size 1..50
     tables = []
